@@ -69,5 +69,6 @@ structure DState where
   fileFam : FileFamSt := {}       -- modes / crash / ids families (C09 C11 C12)
   dp : DevPropsSt := {}
   search : SearchSt := {}
+  validDesc : List String := []                    -- valid family (C19): the last `vl_desc` answer, raw tokens
 
 end Nix.Drive
